@@ -43,6 +43,11 @@ type fire struct {
 	Tick uint64 `json:"tick"`
 }
 
+type fk struct {
+	E uint64 `json:"e"`
+	K string `json:"k"`
+}
+
 type hv struct {
 	H uint64 `json:"H"`
 	T uint64 `json:"T"`
@@ -61,6 +66,7 @@ type rec struct {
 	Now    hv              `json:"now"`
 	Next   hv              `json:"next"`
 	Timers map[string][]tm `json:"timers"`
+	Front  map[string][]fk `json:"front"`
 	NF     []fire          `json:"nf"` // fired during this step
 	NFired int             `json:"nfired"`
 	Uid    uint64          `json:"uid"`
@@ -162,6 +168,8 @@ func main() {
 				}
 			}
 		}
+		var mkcbv func(string) timertypes.TimerCallback = mkcb
+		_ = mkcbv
 		ts.WithCallbackByBlockHeight(mkcb("H"))
 		ts.WithCallbackByBlockTime(mkcb("T"))
 
@@ -169,6 +177,15 @@ func main() {
 			r.Now = hv{uint64(ctx.BlockHeight()), uint64(ctx.BlockTime().UTC().Unix())}
 			r.Next = hv{hx.C(ts.GetNextTimeoutBlockHeight(ctx)), hx.C(ts.GetNextTimeoutBlockTime(ctx))}
 			r.Timers = map[string][]tm{"H": dump(ctx, "H"), "T": dump(ctx, "T")}
+			r.Front = map[string][]fk{}
+			for _, kind := range []string{"H", "T"} {
+				ks, es, _ := ts.GetFrontTimers(ctx, which(kind))
+				fr := []fk{}
+				for i := range ks {
+					fr = append(fr, fk{E: es[i], K: string(ks[i])})
+				}
+				r.Front[kind] = fr
+			}
 			r.NF = append([]fire{}, stepFired...)
 			nfired += len(stepFired)
 			r.NFired = nfired
@@ -199,6 +216,17 @@ func main() {
 					} else {
 						r.Res = ts.HasTimerByBlockTime(ctx, s.E, []byte(s.K))
 					}
+				case "reload":
+					// genesis round trip into a brand-new store
+					gs := ts.Export(ctx)
+					nctx, nkeys, ncdc := hx.StoreCtx("k")
+					nctx = nctx.WithBlockHeight(ctx.BlockHeight()).WithBlockTime(ctx.BlockTime())
+					nts := timertypes.NewTimerStore(nkeys["k"], ncdc, "p")
+					nts.Init(nctx, gs)
+					ctx = nctx
+					*ts = *nts
+					ts.WithCallbackByBlockHeight(mkcb("H"))
+					ts.WithCallbackByBlockTime(mkcb("T"))
 				case "tick":
 					nticks++
 					ctx = ctx.WithBlockHeight(ctx.BlockHeight() + int64(s.E)).
@@ -208,7 +236,6 @@ func main() {
 					hx.Die("unknown action %q", s.A)
 				}
 			}()
-			_ = which
 			snapshot(&r)
 			out.Emit(r)
 		}
